@@ -284,6 +284,44 @@ def run(chk):
             chk.fail("chain-control-differs-from-single-system", f"PtTebd with a ChainControl: a site's recorded states differ by {worst:.2e} from the "
                      "single-system computation with the same controls (time, pre/post side or order)", info)
 
+    # ---- (e) the same rules in compute_dynamics_with_field (control_list): with a field-independent zero Hamiltonian the
+    # mean-field driver must record exactly what compute_dynamics records with the same control and process tensor -----------
+    for i in range(30 if thorough else 10):
+        d, d2 = 2, 4
+        N = rng.randint(1, 3)
+        dt, start = rng.choice(DTS), rng.choice(STARTS)
+        nsys = rng.choice([1, 2])
+        hists = [rand_history(rng, d2, 3, list(range(0, N + 1)), dt, start, kinds=("int",) if rng.random() < 0.6 else ("float",), lo=-1, hi=1)
+                 for _ in range(nsys)]
+        pts = [rand_intpt(rng, d, N, maxbond=2, lo=-1, hi=1) for _ in range(nsys)]
+        rhos = [gint(rng, (d, d), -2, 2) for _ in range(nsys)]
+        info = {"kind": "compute_dynamics_with_field+control_list", "systems": nsys, "N": N, "dt": dt, "start": start,
+                "controls": [[(k, p_) for k, p_, _ in h] for h in hists]}
+        try:
+            ss = [oqupy.TimeDependentSystemWithField(lambda t, a: np.zeros((2, 2), dtype=complex)) for _ in range(nsys)]
+            mfs = oqupy.MeanFieldSystem(ss, field_eom=lambda t, st, a: 0.0)
+            for p_ in pts:
+                p_.dt = dt
+            built = [p_.build() for p_ in pts]
+            mf = quiet(oqupy.compute_dynamics_with_field, mfs, 0.0 + 0j, process_tensor_list=built, initial_state_list=[r.copy() for r in rhos],
+                       control_list=[build_control(d, h) for h in hists], start_time=start, dt=dt, num_steps=N, progress_type="silent")
+            ident = np.identity(d2, dtype=complex)
+            worst = 0.0
+            for k in range(nsys):
+                b2 = pts[k].build()
+                ref = quiet(oqupy.compute_dynamics, InjSystem(d, [(ident, ident)] * N), initial_state=rhos[k].copy(), dt=dt, num_steps=N,
+                            start_time=start, process_tensor=[b2], control=build_control(d, hists[k]), progress_type="silent")
+                worst = max(worst, np.abs(np.array(mf.system_dynamics[k].states) - np.array(ref.states)).max())
+        except Exception as ex:
+            chk.fail("control-list-raises", f"compute_dynamics_with_field with a control_list raises {ex!r}", info)
+            continue
+        chk.search_cases += 1
+        chk.count("cdwf_control_list")
+        chk.case(info, ("cdwfctl", nsys, N, dt, start, str(info["controls"])))
+        if worst > 1e-9:
+            chk.fail("control-list-differs-from-single-system", f"compute_dynamics_with_field(control_list=...): a system's recorded states differ by {worst:.2e} "
+                     "from compute_dynamics with the same control (time, pre/post side or order)", info)
+
     vals, errs = run_cases("C18", HEADER, exprs)
     for e in errs:
         chk.disagree("coq evaluation", e)
